@@ -22,6 +22,7 @@ type gen struct {
 	tags  map[string]string   // tag -> declaring ws
 	up    map[string][]string // ws -> itself and all (transitive) ancestors
 	edges map[string][]string // union role inheritance graph: principal -> inherited
+	heavy bool                // role-heavy schema: more roles, more inheritance, grants to inherited roles
 }
 
 func shuffled(r *kit.Rng, xs []string) []string {
@@ -169,6 +170,26 @@ func (g *gen) genRule(ws string, cyclic bool) (RuleD, bool) {
 	}
 	role := kit.Pick(r, roles)
 	kind := weighted(r, []string{"inherits", "grant", "revoke", "grantall", "revokeall"}, []int{22, 38, 20, 12, 8})
+	if g.heavy {
+		kind = weighted(r, []string{"inherits", "grant", "revoke", "grantall", "revokeall"}, []int{45, 30, 13, 8, 4})
+		if kind != "inherits" {
+			// prefer roles that somebody inherits: their grants reach the heirs only through expansion
+			var inherited []string
+			for _, x := range roles {
+				for _, ys := range g.edges {
+					for _, y := range ys {
+						if y == x {
+							inherited = append(inherited, x)
+						}
+					}
+				}
+			}
+			sort.Strings(inherited)
+			if len(inherited) > 0 && r.Chance(2, 3) {
+				role = kit.Pick(r, inherited)
+			}
+		}
+	}
 	if kind == "inherits" {
 		if len(roles) < 2 {
 			kind = "grant"
@@ -242,11 +263,21 @@ func (g *gen) genRule(ws string, cyclic bool) (RuleD, bool) {
 		return s
 	}
 	var flt FiltD
-	fk := weighted(r, []string{"qnames", "tags", "types", "wstypes", "all", "and", "or", "not"}, []int{50, 12, 10, 8, 6, 6, 4, 4})
+	fk := weighted(r, []string{"qnames", "tags", "types", "wstypes", "all", "and", "or", "not"}, []int{40, 24, 9, 7, 6, 6, 4, 4})
 	switch fk {
 	case "tags":
 		if tg := g.visTags(ws); len(tg) > 0 {
 			flt = FiltD{K: "tags", Names: subset(r, tg, 1, 2)}
+			// most of the time at least one tag that a chosen type carries, often together with another tag
+			if ct := chosen[0].Tags; len(ct) > 0 && r.Chance(3, 4) {
+				flt.Names = []string{kit.Pick(r, ct)}
+				if r.Chance(2, 3) {
+					if o := kit.Pick(r, tg); o != flt.Names[0] {
+						flt.Names = append(flt.Names, o)
+					}
+				}
+			}
+			sort.Strings(flt.Names)
 		} else {
 			flt = FiltD{K: "qnames", Names: names(chosen)}
 		}
@@ -319,9 +350,16 @@ func genScenario(r *kit.Rng, tier string, idx int) *Scenario {
 	typeNames := shuffled(r, []string{"ta", "tb", "tc", "td", "te", "tf", "tg", "th", "ti", "tj", "tk", "tl"})
 	roleNames := shuffled(r, []string{"ra", "rb", "rc", "rd", "re", "rf", "rg"})
 	nroles := 2 + r.Intn(5)
+	g.heavy = idx%4 == 1
+	if g.heavy {
+		nroles = 5 + r.Intn(3)
+	}
 	nrules := 1 + r.Intn(12)
 	if r.Chance(1, 6) {
 		nrules += 6
+	}
+	if g.heavy {
+		nrules += 8
 	}
 	ti, ri := 0, 0
 	for wi, wn := range wsNames {
@@ -340,10 +378,12 @@ func genScenario(r *kit.Rng, tier string, idx int) *Scenario {
 			g.up[wn] = append(g.up[wn], x)
 		}
 		sort.Strings(g.up[wn])
-		if r.Chance(1, 2) {
-			tg := "g" + wn
-			w.Tags = []string{tg}
-			g.tags[tg] = wn
+		for k := 0; k < 2; k++ {
+			if r.Chance(3, 4) {
+				tg := fmt.Sprintf("g%s%d", wn, k)
+				w.Tags = append(w.Tags, tg)
+				g.tags[tg] = wn
+			}
 		}
 		nt := 1 + r.Intn(3)
 		for k := 0; k < nt && ti < len(typeNames); k++ {
@@ -353,15 +393,18 @@ func genScenario(r *kit.Rng, tier string, idx int) *Scenario {
 				t.Fields = subset(r, fieldPool, 1, 3)
 				sort.Strings(t.Fields)
 			}
-			if len(w.Tags) > 0 && r.Chance(1, 2) {
-				t.Tags = w.Tags
+			if len(w.Tags) > 0 && r.Chance(4, 5) {
+				t.Tags = subset(r, w.Tags, 1, 2)
+				sort.Strings(t.Tags)
 			}
 			w.Types = append(w.Types, t)
 			g.types = append(g.types, genType{t, wn})
 		}
 		// most roles live in the first workspaces so that descendants see them
 		nr := 0
-		if wi == 0 {
+		if wi == nws-1 {
+			nr = nroles - ri
+		} else if wi == 0 {
 			nr = (nroles + 1) / 2
 		} else if ri < nroles {
 			nr = 1 + r.Intn(nroles-ri)
@@ -478,6 +521,21 @@ func (g *gen) genRequests(tier string, cyclic bool) {
 			pool = append(pool, "zz.stranger")
 		}
 		q.Roles = subset(r, pool, size, size)
+		if size >= 3 && r.Chance(1, 2) {
+			// principals of inheritance rules first: their expansion is what the loop must not skip
+			var inh, rest []string
+			for _, x := range shuffled(r, pool) {
+				if len(g.edges[x]) > 0 {
+					inh = append(inh, x)
+				} else {
+					rest = append(rest, x)
+				}
+			}
+			q.Roles = append(inh, rest...)
+			if len(q.Roles) > size {
+				q.Roles = q.Roles[:size]
+			}
+		}
 		if len(q.Roles) > 0 && r.Chance(1, 15) {
 			q.Roles = append(q.Roles, q.Roles[0]) // duplicate
 		}
@@ -502,6 +560,7 @@ func (g *gen) genRequests(tier string, cyclic bool) {
 	if cyclic {
 		return
 	}
+	g.genExpansionProbes()
 	for _, w := range sc.Wss {
 		rr := g.visRoles(w.Name)
 		for _, x := range rr {
@@ -509,6 +568,93 @@ func (g *gen) genRequests(tier string, cyclic bool) {
 		}
 		for _, x := range subset(r, append(rr, "zz.stranger"), 1, 2) {
 			sc.Pub = append(sc.Pub, PubD{Ws: w.Name, Role: x})
+		}
+	}
+}
+
+// genExpansionProbes asks, with 3 or 5 roles (a sorted slice with spare capacity), for a resource
+// whose rule reaches one of the supplied roles only through inheritance: the answer then depends
+// on every supplied role really being expanded
+func (g *gen) genExpansionProbes() {
+	r := g.r
+	for _, w := range g.sc.Wss {
+		rr := g.visRoles(w.Name)
+		var inh []string
+		for _, x := range rr {
+			if len(g.edges[x]) > 0 {
+				inh = append(inh, x)
+			}
+		}
+		if len(inh) == 0 || len(rr) < 3 {
+			continue
+		}
+		vis := g.visible(w.Name)
+		for try := 0; try < 3; try++ {
+			d := kit.Pick(r, inh)
+			e := kit.Pick(r, g.edges[d])
+			// a rule for the inherited role, declared where this workspace sees it
+			var rules []RuleD
+			for _, x := range g.sc.Wss {
+				if vis[x.Name] {
+					for _, rl := range x.Rules {
+						if rl.Role == e && !(len(rl.Ops) == 1 && rl.Ops[0] == "inherits") {
+							rules = append(rules, rl)
+						}
+					}
+				}
+			}
+			if len(rules) == 0 {
+				continue
+			}
+			rl := kit.Pick(r, rules)
+			vt := g.visTypes(w.Name)
+			if len(vt) == 0 {
+				continue
+			}
+			t := vt[r.Intn(len(vt))]
+			if rl.Flt.K == "qnames" {
+				for _, x := range vt {
+					if x.Name == rl.Flt.Names[0] {
+						t = x
+					}
+				}
+			}
+			op := "execute"
+			if class(t.Kind) != "func" {
+				op = "select"
+				if len(rl.Ops) > 0 && rl.Ops[0] != "execute" {
+					op = kit.Pick(r, rl.Ops)
+				}
+			}
+			size := 3
+			if len(rr) >= 5 && r.Chance(1, 3) {
+				size = 5
+			}
+			// first the roles sorting before d whose own expansion inserts a name before d (that insertion
+			// is what shifts d out of the loop's view), then anything else
+			var shifting []string
+			for _, x := range inh {
+				if x < d {
+					for _, y := range g.edges[x] {
+						if y < d {
+							shifting = append(shifting, x)
+							break
+						}
+					}
+				}
+			}
+			others := append(append(shuffled(r, shifting), shuffled(r, inh)...), shuffled(r, rr)...)
+			roles := []string{d}
+			for _, x := range others {
+				dup := false
+				for _, y := range roles {
+					dup = dup || x == y
+				}
+				if !dup && len(roles) < size {
+					roles = append(roles, x)
+				}
+			}
+			g.sc.Queries = append(g.sc.Queries, QueryD{Ws: w.Name, Op: op, Res: t.Name, Roles: roles})
 		}
 	}
 }
